@@ -8,12 +8,20 @@
        (positionally or by keyword), otherwise the bound value if there is one, otherwise the signature
        default provided it is allowed by the allowlist, not in the denylist and representable;
        merging into the section is a dict update (the most recent contribution wins, other sections unchanged).
-   NOT proved in Coq (validated on the implementation by harness/props/c07.py, a replay in a second
-   fresh gin): the replay clause — clearing, parsing operative_config_str() and repeating the calls gives
-   the same arguments and text (it goes through the real serialiser and parser). *)
+     - exactly: the sections that differ after a call (of any nesting, with references evaluated on the
+       way) are those of the calls that were ENTERED during it, and each of them exists afterwards; with
+       reference-free bindings exactly one section is written;
+     - replay of one call: in ANY store whose bindings for this (scope, configurable) are what the call
+       recorded (e.g. the cleared store with just that section), the repeated call is handed the same
+       positional arguments and Python binds the same environment (defaults that were filtered out of the
+       record by allowlist / denylist / representability are re-supplied by the signature), and it
+       records the same section again.
+   NOT proved in Coq (validated by harness/props/c07.py with a replay in a second fresh gin): that
+   parsing operative_config_str() produces such a store — that goes through the real serialiser and
+   parser (C06 / C02 / C03 cover their halves) — and the whole-sequence form of the replay. *)
 From Coq Require Import List String ZArith Bool Arith.
 From GinV Require Import Lib.Out Lib.PyStr Model.SelectorMap Model.Values Model.Gin Model.GinEngine Model.CallSpec
-                         Proofs.CallLemmas Proofs.CallProofs Proofs.MachineFrame Proofs.MachineProofs Proofs.MacroOperProofs.
+                         Proofs.CallLemmas Proofs.CallProofs Proofs.MachineFrame Proofs.MachineProofs Proofs.MacroOperProofs Proofs.OperReplayProofs.
 Import ListNotations.
 Open Scope string_scope.
 Open Scope list_scope.
@@ -61,6 +69,53 @@ Theorem C07_merge_other_sections_unchanged : forall s k k' vals, ckey_eqb k' k =
   cget k' (operative (oper_update s k vals)) = cget k' (operative s).
 Proof. exact C07_oper_update_other. Qed.
 
+(* ---- exactly the pairs that were called ---- *)
+Theorem C07_changed_section_was_entered : forall fuel s sel args kw s' r k, call fuel s sel args kw = (s', r) ->
+  cget k (operative s') <> cget k (operative s) -> In k (call_keys fuel s sel args kw).
+Proof. exact OperReplayProofs.C07_changed_section_was_entered. Qed.
+Theorem C07_entered_section_exists : forall fuel s sel args kw s' r k, call fuel s sel args kw = (s', r) ->
+  In k (call_keys fuel s sel args kw) -> cget k (operative s') <> None.
+Proof. exact OperReplayProofs.C07_entered_section_exists. Qed.
+Theorem C07_entered_means_called : forall f s sel args kw c, lookup_sel s sel = Some c ->
+  existsb is_req (skipn (List.length (supplied_positional_names (c_sig c) args)) args) = false ->
+  exists rest, call_keys (S f) s sel args kw = (scope_str (current_scope s), sel) :: rest.
+Proof. exact call_keys_head. Qed.
+Theorem C07_call_operative_exact : forall f s sel args kwargs s' r c, lookup_sel s sel = Some c ->
+  c_kind c <> KSingleton ->
+  existsb is_req (skipn (List.length (supplied_positional_names (c_sig c) args)) args) = false ->
+  (forall k v, In (k, v) (prep_bindings (config s) (current_scope s) c args kwargs) -> ref_free_at f v = true) ->
+  call (S f) s sel args kwargs = (s', r) ->
+  operative s' = operative (oper_update s (scope_str (current_scope s), sel)
+                   (prep_operative c args kwargs (prep_bindings (config s) (current_scope s) c args kwargs))).
+Proof. exact OperReplayProofs.C07_call_operative_exact. Qed.
+
+(* ---- replay ---- *)
+Theorem C07_replay_one_call : forall c cfg cfg' scope args kwargs na fk,
+  get_bindings_for cfg' scope (c_sel c) true =
+    prep_operative c args kwargs (prep_bindings cfg scope c args kwargs) ->
+  merge_call c args kwargs (prep_bindings cfg scope c args kwargs) = Ok (na, fk) ->
+  exists fk',
+    merge_call c args kwargs (prep_bindings cfg' scope c args kwargs) = Ok (na, fk') /\
+    py_bind (c_sig c) na fk' = py_bind (c_sig c) na fk.
+Proof.
+  intros c cfg cfg' scope args kwargs na fk H1 H2.
+  destruct (OperReplayProofs.C07_replay_one_call c cfg cfg' scope args kwargs na fk H1 H2) as [fk' [A [B _]]].
+  exists fk'. split; assumption.
+Qed.
+Theorem C07_replay_from_cleared_store : forall c cfg scope args kwargs na fk,
+  let d := prep_operative c args kwargs (prep_bindings cfg scope c args kwargs) in
+  let cfg' := [((scope_str scope, c_sel c), d)] in
+  merge_call c args kwargs (prep_bindings cfg scope c args kwargs) = Ok (na, fk) ->
+  exists fk', merge_call c args kwargs (prep_bindings cfg' scope c args kwargs) = Ok (na, fk') /\
+              py_bind (c_sig c) na fk' = py_bind (c_sig c) na fk.
+Proof. exact OperReplayProofs.C07_replay_from_cleared_store. Qed.
+Theorem C07_record_reproduces : forall c cfg cfg' scope args kwargs,
+  get_bindings_for cfg' scope (c_sel c) true =
+    prep_operative c args kwargs (prep_bindings cfg scope c args kwargs) ->
+  forall p, sget p (prep_operative c args kwargs (prep_bindings cfg' scope c args kwargs)) =
+            sget p (prep_operative c args kwargs (prep_bindings cfg scope c args kwargs)).
+Proof. exact OperReplayProofs.C07_record_reproduces. Qed.
+
 Print Assumptions C07_call_records_section.
 Print Assumptions C07_sections_only_grow.
 Print Assumptions C07_non_call_ops_keep_operative.
@@ -69,3 +124,10 @@ Print Assumptions C07_call_contribution.
 Print Assumptions C07_defaults_recorded_iff.
 Print Assumptions C07_merge_most_recent_wins.
 Print Assumptions C07_merge_other_sections_unchanged.
+Print Assumptions C07_changed_section_was_entered.
+Print Assumptions C07_entered_section_exists.
+Print Assumptions C07_entered_means_called.
+Print Assumptions C07_call_operative_exact.
+Print Assumptions C07_replay_one_call.
+Print Assumptions C07_replay_from_cleared_store.
+Print Assumptions C07_record_reproduces.
